@@ -242,10 +242,10 @@ var nastyChunks = []string{"&", "&amp;", "<", ">", "#", ";", ",", ":", "{", "}",
 var goPairs = []string{`\\`, `\t`, `\n`, `\r`}
 var anyPairs = []string{`\\`, `\t`, `\n`, `\x`, `\0`, `\u`, `\a`, `\ `}
 
-// fixLit keeps a literal expressible: a backslash pair ending in a backslash
+// FixLit keeps a literal expressible: a backslash pair ending in a backslash
 // must not stand directly before a quote character or the end of the literal
 // (the grammar would read backslash-quote as an escape and not terminate).
-func fixLit(ts []LitTok) []LitTok {
+func FixLit(ts []LitTok) []LitTok {
 	var r []LitTok
 	for _, t := range ts {
 		if t.S != "" {
@@ -272,7 +272,7 @@ func (g *gen) lit() (l Lit) {
 		return l
 	}
 	n := g.intn(0, 5, "nlittok")
-	defer func() { l.Toks = fixLit(l.Toks) }()
+	defer func() { l.Toks = FixLit(l.Toks) }()
 	for i := 0; i < n; i++ {
 		switch g.intn(0, 5, "littok") {
 		case 0, 1:
